@@ -40,15 +40,25 @@ def header(n):
     return b':c:\x00' + bytes((n >> 8, n & 255)) + b'\x00\x00'
 
 
+def _scribble(buf):
+    """What a function returned belongs to the caller: overwrite it once it has been copied, so that a later result
+    which shares storage with it (a cache, a module-level buffer) shows up as a wrong result."""
+    if isinstance(buf, bytearray):
+        buf[:] = b'\xa5' * len(buf)
+        buf += b'\xa5\xa5'
+
+
 def check_text(t, case=None, want_stats=False):
     """All C05 oracles for one text. Returns (n_blocks, n_esc, kind)."""
     from pico8.game import compress
     from pico8.game.formatter import p8png
     case = case or {'text': bytes(t)}
     try:
-        stream = bytes(compress.compress_code(bytes(t)))
+        returned = compress.compress_code(bytes(t))
+        stream = bytes(returned)
     except Exception as e:
         raise Violation('compress_code raised %r on %s' % (e, show(t)), case, 'compress')
+    _scribble(returned)       # the returned buffer is the caller's; the same text is compressed again below
     # (2) well-formedness by the independent parser
     try:
         ops, consumed, produced = reffmt.parse_stream(stream)
@@ -93,12 +103,21 @@ def check_text(t, case=None, want_stats=False):
     # ... and through the code-area functions when they pick compression
     kind = 'raw'
     try:
-        area = bytes(p8png.get_bytes_from_code(bytes(t)))
+        returned = p8png.get_bytes_from_code(bytes(t))
+        area = bytes(returned)
+        _scribble(returned)
+        area_again = bytes(p8png.get_bytes_from_code(bytes(t))) if (len(t) + t[:1][0:1].__len__() + sum(t[:8])) % 8 == 0 else area
     except Exception as e:
         raise Violation('get_bytes_from_code raised %r on %s' % (e, show(t)), case, 'area')
+    if area_again != area:
+        raise Violation('get_bytes_from_code gives a different code area for the same text %s the second time (after the '
+                        'caller overwrote the first result it was given)' % show(t, 100), case, 'area-repeat')
     if len(area) >= 0x3d00 and area[:4] == b':c:\x00':
         kind = 'compressed'
-        rk, rcode = reffmt.decode_code_area(area[:0x3d00], 8)
+        try:
+            rk, rcode = reffmt.decode_code_area(area[:0x3d00], 8)
+        except reffmt.FormatError as e:
+            raise Violation('code area written for %s is malformed: %s' % (show(t, 100), e), case, 'area-ref')
         if rk != 'compressed' or rcode != bytes(t):
             raise Violation('code area written for %s decodes (reference) to %s' % (show(t, 100), show(rcode, 100)),
                             case, 'area-ref')
